@@ -8,34 +8,36 @@ import Rscp.Gen.Leaves
 namespace Rscp.Tie.JsonIn
 
 /-- source of `e3dc_unmarshalJSONRequests` is unchanged -/
-theorem shape_e3dc_unmarshalJSONRequests : Rscp.Gen.Shape.e3dc_unmarshalJSONRequests = "5e23dabee6ba23e7a84cd29fe72394ea" := rfl
+theorem shape_e3dc_unmarshalJSONRequests : Rscp.Gen.Shape.e3dc_unmarshalJSONRequests = "081be99298eb8c6d26911f68b31605d9" := rfl
 /-- source of `e3dc_unmarshalJSONRequest` is unchanged -/
-theorem shape_e3dc_unmarshalJSONRequest : Rscp.Gen.Shape.e3dc_unmarshalJSONRequest = "37691bfabac06033a34cec0c8ccc1dae" := rfl
+theorem shape_e3dc_unmarshalJSONRequest : Rscp.Gen.Shape.e3dc_unmarshalJSONRequest = "a9553775d8f1b8d9a301ae20973f8615" := rfl
 /-- source of `e3dc_unmarshalJSONValue` is unchanged -/
-theorem shape_e3dc_unmarshalJSONValue : Rscp.Gen.Shape.e3dc_unmarshalJSONValue = "1d65ecad1d5cb8b80b0a26af1209ee5d" := rfl
+theorem shape_e3dc_unmarshalJSONValue : Rscp.Gen.Shape.e3dc_unmarshalJSONValue = "1daa8bb0bd399fde374375fd713efe10" := rfl
 /-- source of `e3dc_isJSONEmpty` is unchanged -/
-theorem shape_e3dc_isJSONEmpty : Rscp.Gen.Shape.e3dc_isJSONEmpty = "e804c5bc31b3382cae6f3f679f2a0d06" := rfl
+theorem shape_e3dc_isJSONEmpty : Rscp.Gen.Shape.e3dc_isJSONEmpty = "9081ddc99d05b9db72bde67b6c8e562c" := rfl
 /-- source of `e3dc_isJSONArray` is unchanged -/
-theorem shape_e3dc_isJSONArray : Rscp.Gen.Shape.e3dc_isJSONArray = "481a583905fd52c2846505f4f1cdb930" := rfl
+theorem shape_e3dc_isJSONArray : Rscp.Gen.Shape.e3dc_isJSONArray = "5c3c38c38d9e9043c360e47cf606e854" := rfl
 /-- source of `e3dc_isJSONString` is unchanged -/
-theorem shape_e3dc_isJSONString : Rscp.Gen.Shape.e3dc_isJSONString = "eb01740010f3d8c69fb60d6b3622382b" := rfl
+theorem shape_e3dc_isJSONString : Rscp.Gen.Shape.e3dc_isJSONString = "ac04d4d2079d76fa78a03d01cf089fda" := rfl
 /-- source of `e3dc_isJSONNumber` is unchanged -/
-theorem shape_e3dc_isJSONNumber : Rscp.Gen.Shape.e3dc_isJSONNumber = "9daae78b37d587c33f483617876b544e" := rfl
+theorem shape_e3dc_isJSONNumber : Rscp.Gen.Shape.e3dc_isJSONNumber = "7922934d8ceaf69e17f1c639e0e50391" := rfl
 /-- source of `e3dc_isJSONDataType` is unchanged -/
-theorem shape_e3dc_isJSONDataType : Rscp.Gen.Shape.e3dc_isJSONDataType = "5d5d27814dada12bdcce6f9989c90fe3" := rfl
+theorem shape_e3dc_isJSONDataType : Rscp.Gen.Shape.e3dc_isJSONDataType = "2a380eb70291db4e122ed8e08888ecee" := rfl
 /-- source of `rscp_Message_UnmarshalJSON` is unchanged -/
-theorem shape_rscp_Message_UnmarshalJSON : Rscp.Gen.Shape.rscp_Message_UnmarshalJSON = "8943254b38aa55b3dea6ac1ab5f2c4f7" := rfl
+theorem shape_rscp_Message_UnmarshalJSON : Rscp.Gen.Shape.rscp_Message_UnmarshalJSON = "21a6632906368e488a7c00609cffb181" := rfl
 /-- source of `rscp_Message_UnmarshalJSONValue` is unchanged -/
-theorem shape_rscp_Message_UnmarshalJSONValue : Rscp.Gen.Shape.rscp_Message_UnmarshalJSONValue = "a5cb3e4daec3e8cf556dcdf8de33148e" := rfl
+theorem shape_rscp_Message_UnmarshalJSONValue : Rscp.Gen.Shape.rscp_Message_UnmarshalJSONValue = "ad7855267bd9e86963b2b498e811a176" := rfl
 /-- source of `rscp_DataType_newNumber` is unchanged -/
-theorem shape_rscp_DataType_newNumber : Rscp.Gen.Shape.rscp_DataType_newNumber = "13e3a8561239aaa2b5f09d9ac40bbee0" := rfl
+theorem shape_rscp_DataType_newNumber : Rscp.Gen.Shape.rscp_DataType_newNumber = "70766ac6ae6f3aaabe24d36cfcfc6fc2" := rfl
 /-- source of `rscp_DataType_new` is unchanged -/
-theorem shape_rscp_DataType_new : Rscp.Gen.Shape.rscp_DataType_new = "8d807aa65c3f75dab708caaead55aff3" := rfl
+theorem shape_rscp_DataType_new : Rscp.Gen.Shape.rscp_DataType_new = "eb2df129ec7f54798a108eba99caf8eb" := rfl
+/-- source of `rscp_var_newMap` is unchanged -/
+theorem shape_rscp_var_newMap : Rscp.Gen.Shape.rscp_var_newMap = "63ae8b8dc37c650c9a7757a308782f7d" := rfl
 /-- source of `rscp_Tag_UnmarshalJSON` is unchanged -/
-theorem shape_rscp_Tag_UnmarshalJSON : Rscp.Gen.Shape.rscp_Tag_UnmarshalJSON = "01ec57412b2cacd5e5edcdf2cec6d836" := rfl
+theorem shape_rscp_Tag_UnmarshalJSON : Rscp.Gen.Shape.rscp_Tag_UnmarshalJSON = "7440c5022249bfc1511cd14aa2fc30f8" := rfl
 /-- source of `rscp_DataType_UnmarshalJSON` is unchanged -/
-theorem shape_rscp_DataType_UnmarshalJSON : Rscp.Gen.Shape.rscp_DataType_UnmarshalJSON = "3aa85fd6a1677ef70d5b30598c1c15a5" := rfl
+theorem shape_rscp_DataType_UnmarshalJSON : Rscp.Gen.Shape.rscp_DataType_UnmarshalJSON = "f90a6f5ae6516957b621ca70397364ee" := rfl
 /-- source of `rscp_Message_validate` is unchanged -/
-theorem shape_rscp_Message_validate : Rscp.Gen.Shape.rscp_Message_validate = "964b537f93a2a756c396615db16ae150" := rfl
+theorem shape_rscp_Message_validate : Rscp.Gen.Shape.rscp_Message_validate = "7de991ab726689a28f00bf09180f434f" := rfl
 
 end Rscp.Tie.JsonIn
